@@ -33,9 +33,10 @@ structure WSt (role : Role) (w : World) (Q : List Frame) (ks : List Mask) : Prop
 
 /-! ## primitives -/
 
-theorem checkReset_active {α : Type} (w : World) (r : Res α) (h : w.c.state = .active) :
+theorem checkReset_active {α : Type} (w : World) (r : Res α) (h : w.c.state = .active)
+    (hne : r ≠ .err .connectionClosed) :
     w.checkConnectionReset r = (w, r) := by
-  rcases checkConnectionReset_cases w r with ⟨h1, _⟩ | ⟨_, _, h3⟩
+  rcases checkConnectionReset_cases w r hne with ⟨h1, _⟩ | ⟨_, _, h3⟩
   · exact h1
   · rw [h] at h3; cases h3
 
@@ -94,7 +95,8 @@ theorem bufferFrame_exact (role : Role) (w : World) (f : Frame) (ks : List Mask)
   have hnw : r.isWriteBufferFull = false := by
     rcases hk with h | ⟨k, h⟩ <;> rw [h] <;> rfl
   simp only [hnw, Bool.false_eq_true, if_false]
-  rw [checkReset_active _ _ (by show w0.c.state = .active; rw [hpc]; exact hst)]
+  rw [checkReset_active _ _ (by show w0.c.state = .active; rw [hpc]; exact hst)
+    (by rcases hk with h | ⟨k, h⟩ <;> rw [h] <;> (intro h'; cases h'))]
   refine ⟨?_, ?_, ?_, ?_, ?_, ?_, hk⟩
   · show w0.c.role = role; rw [hpc]; exact hrole
   · show w0.c.state = .active; rw [hpc]; exact hst
